@@ -31,10 +31,16 @@ THEOREMS = ["code_shape_is_repaired", "check_readonly", "check_reports_unfixed",
             "layered_scan_is_view", "layered_access_is_view", "layered_check_sound", "layered_check_sound_reports",
             "layered_check_complete", "layered_check_readonly", "layered_fix_converges", "layered_healthy_clean",
             "key_nil_iff", "empty_string_key_nil_type_not", "fk_index_empty_is_no_reference",
-            "fk_constraint_empty_is_no_reference", "empty_string_refs_clean"]
+            "fk_constraint_empty_is_no_reference", "empty_string_refs_clean",
+            "named_run_is_flat_run", "named_stores_run_is_flat_run", "named_check_readonly", "named_check_reports_unfixed",
+            "named_check_complete", "named_check_sound_reports", "named_check_sound", "named_check_clean_iff",
+            "named_fix_converges", "named_fix_mirrors", "named_fix_idempotent", "named_fix_noop_on_consistent",
+            "named_fix_writes_declared_paths", "named_fix_run_repairs", "naming_irrelevant",
+            "nested_nullable_fk_is_repaired", "old_nested_nullable_fk_not_repaired"]
 TABLE_OBLIGATIONS = ["code_shape_is_repaired (Generated/C09Quirks.lean, regenerated from boltz/link_collection.go and "
                      "boltz/indexes.go: IterateLinks is a read-only lookup, the unique-index entity loop skips an empty "
-                     "value like nil, dangling links are removed after the link-cursor loop)"]
+                     "value like nil, dangling links are removed after the link-cursor loop, fkIndex / fkConstraint clear a dangling nullable "
+                     "reference at the symbol's path prefix ++ [key])"]
 
 
 PROP = "c09"
@@ -48,6 +54,29 @@ def parse_case(line):
         return None
     sp = lambda s: [x.strip() for x in s.split(";") if x.strip()]
     return {"mode": m.group(1), "history": sp(m.group(2)), "corrupt": sp(m.group(3)), "state": m.group(4).strip()}
+
+
+def tx_mode(mode):
+    """sep | tx1 | tx1r; a case over a schema of the naming / declaring-store family has mode N:<txmode>:<descriptor>"""
+    return mode.split(":")[1] if mode.startswith("N:") else mode
+
+
+def with_tx_mode(mode, tx):
+    if mode.startswith("N:"):
+        p = mode.split(":", 2)
+        return f"N:{tx}:{p[2]}"
+    return tx
+
+
+def mode_key(mode):
+    """the mode without the schema descriptor; for a family schema the naming variant is recognised from the path of
+    things.name: same / suffixed / rotated / nested"""
+    if not mode.startswith("N:"):
+        return mode
+    m = re.search(r"s/things/name/([^,]*)", mode)
+    path = m.group(1) if m else ""
+    nv = "same" if path == "name" else "suffixed" if path == "nameK" else "nested" if ">" in path else "rotated"
+    return "N:" + tx_mode(mode) + ":" + nv
 
 
 def make_case(mode, history, corrupt, state):
@@ -79,7 +108,8 @@ def parse_verdict(v):
 # a matcher sees (case line, info) with info = {"clause", "items", "impl", "model", "obs", "case"} and says
 # whether a known finding explains THIS failing clause of this case.  The three findings of the first
 # round (link check creating buckets in check-only mode, "" in a nullable unique index, cursor-delete
-# skip in one transaction) are repaired in /repo (946f949, 6e61536, 0fc3c29); nothing is listed now.
+# skip in one transaction) are repaired in /repo (946f949, 6e61536, 0fc3c29), as is the one of round 8 (a dangling
+# reference in a nullable fk stored under a prefix was never repaired; C09-nested-fk-repair); nothing is listed now.
 
 MATCHERS = {}
 
@@ -103,7 +133,19 @@ RULE = ("random histories (4-17 operations through Create/Update/DeleteById/SetL
         "child-index corruption; 8 more shared targets inside the child stores. The EMPTY STRING: one random history in five writes "" through the API "
         "into alias / owner / dep / boss / tag / nick / label (accepted as no value) and tries empty list elements and links "
         "to the id \"\" (refused); all 128 subsets of those seven fields set to \"\" as healthy databases and with a stale "
-        "back-reference; raw writes of \"\" into every fk field. non-trivial = at least one corruption "
+        "back-reference; raw writes of \"\" into every fk field. SCHEMA FAMILY (cases N:...): the schema is drawn per case and "
+        "carried by the case line - per scalar symbol a NAME and a stored PATH (key == name / key = name+K / the keys of a "
+        "store's symbols rotated so that the key of one is the name of another / unique-indexed and non-nullable-fk symbols "
+        "under a prefix bucket / the nullable fks under a prefix as well), and the store (things root, things_x extended "
+        "child, things_p plain child) that OWNS AND DECLARES each of: the nullable fk index owner -> owners.things, the "
+        "nullable fk constraint dep (also: declared by things_x on the parent's granted symbol), the nullable fk index "
+        "boss -> things.minions, the link collection groups <-> owners.members; the nullable fk index owners.fav points at "
+        "a root or child store (back-references inside the child's data bucket); generic stores wired through "
+        "AddSymbolWithKey / AddFkSymbolWithKey; corruptions addressed physically (path, bucket); the state dump lists, per "
+        "entity bucket, the value at every declared PATH and every key no symbol accounts for; for every naming variant x "
+        "declaring store a healthy population with one corruption of every class on every declared index / symbol, "
+        "sampled pairs (also inside one transaction, both store orders), and random schemas x random histories x 0-4 "
+        "corruptions. non-trivial = at least one corruption "
         "applied and at least one report in the check-only phase; distinct = (mode, sorted set of (class, index) "
         "pairs reported in phase 1, number of reports in phase 3)")
 
@@ -112,7 +154,7 @@ def nontrivial(case, impl):
     c, obs = parse_case(case), parse_obs(impl)
     if not c or not obs or not c["corrupt"] or not obs["R1"]:
         return None
-    return (c["mode"], tuple(sorted(set(":".join(r.split(":")[:2]) for r in obs["R1"]))), len(obs["R3"]))
+    return (mode_key(c["mode"]), tuple(sorted(set(":".join(r.split(":")[:2]) for r in obs["R1"]))), len(obs["R3"]))
 
 
 def describe(case, impl, model, spec):
@@ -190,8 +232,8 @@ def shrink(ctx, case, want, unexplained):
             cands.append((cur["mode"], cur["history"], cur["corrupt"][:i] + cur["corrupt"][i + 1:]))
         for i in range(len(cur["history"])):
             cands.append((cur["mode"], cur["history"][:i] + cur["history"][i + 1:], cur["corrupt"]))
-        if cur["mode"] != "sep":
-            cands.append(("sep", cur["history"], cur["corrupt"]))
+        if tx_mode(cur["mode"]) != "sep":
+            cands.append((with_tx_mode(cur["mode"], "sep"), cur["history"], cur["corrupt"]))
         if not cands:
             break
         lines = embed_states(ctx, cands)
@@ -260,8 +302,8 @@ def run(ctx, replay_cases=None):
     sep_ok = {}
     for c, a, m in zip(lines, impl, model):
         pc = parse_case(c)
-        if pc and pc["mode"] == "sep":
-            sep_ok[(tuple(pc["history"]), tuple(pc["corrupt"]))] = (a == m)
+        if pc and tx_mode(pc["mode"]) == "sep":
+            sep_ok[(with_tx_mode(pc["mode"], "sep"), tuple(pc["history"]), tuple(pc["corrupt"]))] = (a == m)
 
     def unexplained(c, a, m, s, record=False):
         pc, obs = parse_case(c), parse_obs(a)
@@ -271,7 +313,7 @@ def run(ctx, replay_cases=None):
         left = set()
         for cl, items in clauses.items():
             info = {"clause": cl, "items": items, "impl": a, "model": m, "obs": obs, "case": pc,
-                    "twin_ok": sep_ok.get((tuple(pc["history"]), tuple(pc["corrupt"]))) if pc else None}
+                    "twin_ok": sep_ok.get((with_tx_mode(pc["mode"], "sep"), tuple(pc["history"]), tuple(pc["corrupt"]))) if pc else None}
             if record:
                 hit = common.classify(ctx, MATCHERS, c, info)
             else:
@@ -289,7 +331,7 @@ def run(ctx, replay_cases=None):
             keys.add(k)
         pc, obs = parse_case(c), parse_obs(a)
         if pc:
-            bump(hist["mode"], pc["mode"])
+            bump(hist["mode"], mode_key(pc["mode"]))
             bump(hist["corruptions"], str(len(pc["corrupt"])))
             bump(hist["things"], str(pc["state"].count("E things ")))
         if obs:
